@@ -2968,6 +2968,7 @@ template <typename T>
         report_missed("Unfulfilled expectation");
       }
       this->unlink();
+      sequences.reset(); // leave the sequences while the lock is still held
     }
 
     bool
